@@ -460,6 +460,9 @@ def executor(mode: str) -> XExecutor:
         "pickle.dumps": _uf1(z3.Function("pickle.dumps", Obj, Obj)),
     })
     ex.binops[("Path", "Div")] = b_path_div
+    # Path.parent: the directory part, an uninterpreted function of the path (mkstemp's `dir=` does not enter the contract: the name it
+    # returns is fresh in any directory)
+    ex.rec_props = {("Path", "parent"): lambda e, o, st_: Rec("Path", {"t": z3.Function("path_parent", Obj, Obj)(o.attrs["t"])})}
     ex.inline |= {AC.get_readable_hash, AC._to_bytes, AC._get_python_hash_seed}
     return ex
 
@@ -625,9 +628,10 @@ try:
     r = call(E, d)
     out["pair_record"] = {"ok": r == ("value", E.doit()), "input": "<key>.pkl holding the pair (expression, unfolding)", "expected": str(E.doit()), "observed": str(r[1])}
 finally: shutil.rmtree(d, ignore_errors=True)
-# killed writer + observer: pickle.dump is replaced (in ampform.sympy only) by one that looks at the directory as a concurrent
-# reader would, writes n bytes and dies
-real_pickle = AS.pickle
+# killed writer + observer: pickle.dump (the function of the pickle module itself, wherever the code under test calls it from) is
+# replaced by one that looks at the directory as a concurrent reader would, writes n bytes and dies
+import pickle as _pickle_mod
+real_dump = _pickle_mod.dump
 full = len(pickle.dumps((E, E.doit())))
 kills = range(0, full, 7) if thorough else (0, 5, full // 2)
 killed_bad, seen = [], []
@@ -638,15 +642,15 @@ for n in kills:
         fh.write(pickle.dumps(obj)[:n]); fh.flush()
         seen.extend(torn(d))
         raise Killed()
-    AS.pickle = types.SimpleNamespace(dump=dump, load=pickle.load, dumps=pickle.dumps, loads=pickle.loads, UnpicklingError=pickle.UnpicklingError)
+    _pickle_mod.dump = dump
     try:
         try: perform_cached_doit(E, d)
         except Killed: pass
-        finally: AS.pickle = real_pickle
+        finally: _pickle_mod.dump = real_dump
         r = call(E, d)
         if r != ("value", E.doit()): killed_bad.append(f"writer killed after {n} bytes -> next call: {r[1]}")
     finally:
-        AS.pickle = real_pickle
+        _pickle_mod.dump = real_dump
         shutil.rmtree(d, ignore_errors=True)
 out["killed_writer"] = {"ok": not killed_bad, "input": f"perform_cached_doit({E}) killed inside pickle.dump after n bytes; then called again", "expected": str(E.doit()), "observed": killed_bad[:3], "kill_points": len(list(kills))}
 out["observer"] = {"ok": not seen, "input": "directory listing taken by a concurrent reader while the writer is inside pickle.dump", "expected": "every *.pkl is a complete pickle", "observed": sorted(set(seen))[:3]}
